@@ -13,6 +13,7 @@ NOTE = ("trusts the harness' own models/oracles (written from the RFC text, shar
 CHECKS = {
   "C01": ("vcheck", "property-based testing: generated (schema, document) pairs (samples, near-misses, unrelated) checked against a reference implementation of the RFC 8610 set semantics (PEG arrays, declarative maps); proptest shrinking", "3/C01"),
   "C02": ("vcheck", "property-based testing: generated (schema, data item) pairs x 3 encodings each, checked against the reference RFC 8610 semantics over the CBOR data model; metamorphic equality across encodings; proptest shrinking", "3/C02"),
+  "C04": ("vcheck", "differential testing: generated shared-feature schemas x JSON-model documents, JSON validator vs CBOR validator verdict classes, calls isolated in worker processes; proptest shrinking", "3/C04"),
   "C06": ("vcheck", "property-based testing: grammar-sampled documents, parse->Display->parse round-trip oracle on an independent AST skeleton, idempotence, proptest shrinking", "3/C06"),
   "C11": ("vcheck", "differential testing against a reference RFC 8949 decoder: exhaustive enumeration of short byte strings + structured/mutated generated encodings, proptest shrinking", "3/C11"),
 }
